@@ -144,6 +144,7 @@ pub fn drive(name: &str, out: &str, args: &[String]) {
         "solend" => solend_driver(out, seed, arg(args, 1, 30)),
         "edge" => crate::drv2::edge_driver(out, seed, arg(args, 1, 40)),
         "kill" => crate::drv2::kill_driver(out, seed, arg(args, 1, 12)),
+        "zerorate" => crate::drv2::zerorate_driver(out, seed, arg(args, 1, 12)),
         _ => {
             eprintln!("unknown driver {}", name);
             std::process::exit(2);
